@@ -9,6 +9,7 @@ ops
 * `E key ts id shard ctx x`      an applied STORE (ids as observed on the engine)
 * `F shard` / `C shard` / `B`    flush of a shard (file time far in the future of all stamps),
                                   compaction round, backdating of the segment files
+* `FB shard` / `FE`              the two halves of a flush (files readable, buffer not yet released)
 * `REM n ctx cmp since now fr`   REMEMBER under name n; `ctx` = `*`|c, `cmp` = `*`|`eq:v`|`ge:v`…,
                                   `since` = `*`|t; `fr` = the frames the engine stored, batches
                                   separated by `;`, keys by `,` (`-` = none)
@@ -89,6 +90,11 @@ def stepOp (d : DSt) (toks : List String) : DSt :=
     | some sh => { d with st := { d.st with store := d.st.store.compact sh bigTime } }
     | none => fail
   | ["B"] => { d with st := { d.st with store := d.st.store.backdate } }
+  | ["FB", shard] =>
+    match shard.toNat? with
+    | some sh => { d with st := { d.st with store := d.st.store.flushBegin sh bigTime } }
+    | none => fail
+  | ["FE"] => { d with st := { d.st with store := d.st.store.flushEnd } }
   | ["REM", n, ctx, cmp, since, now, fr] =>
     match n.toNat?, parseOpt ctx, parseCmp cmp, parseOpt since, now.toNat?, parseFrames fr with
     | some n, some ctx, some cmp, some since, some now, some fr =>
@@ -112,7 +118,8 @@ def stepOp (d : DSt) (toks : List String) : DSt :=
       | none => emit d "show:unknown"
       | some e =>
         let w0 := sinkMark e.frames
-        let want := ((deltaQuery d.st.store e).filter (fun r => lexGt r.pos w0)).map (·.key)
+        -- what the model's own watermark filter keeps from the model's own delta query
+        let want := (keptBatches w0 [deltaQuery d.st.store e]).flatten.map (·.key)
         match framesOf d.st.store.vis fr with
         | none => emit d s!"show:bad-delta want={keysStr want}"
         | some sched =>
@@ -127,11 +134,35 @@ def stepOp (d : DSt) (toks : List String) : DSt :=
     match parseOpt ctx, parseCmp cmp, parseOpt since with
     | some ctx, some cmp, some since =>
       let q := ({ ctx, cmp, since } : QSpec).toSpec
-      emit d s!"q:{keysStr ((runQuery d.st.store q none).map (·.key))}"
+      emit d s!"q:{keysStr ((queryAnswer d.st.store q).map (·.key))}"
     | _, _, _ => fail
   | _ => fail
 
+/-- `tickets N M<id> …`: FlushProgress counters after every call, and whether the barrier for
+the current snapshot is open. -/
+def ticketsAnswer (toks : List String) : String :=
+  let rec go (p : Progress) (ts : List String) (acc : List String) : Option (List String) :=
+    match ts with
+    | [] => some acc.reverse
+    | t :: rest =>
+      if t == "N" then
+        let (p', id) := p.nextId
+        go p' rest (s!"n{id}:{p'.submitted},{p'.completed},{if p'.barrierOpen p'.submitted then 1 else 0}" :: acc)
+      else if t.startsWith "M" then
+        match (t.drop 1).toString.toNat? with
+        | some id =>
+          let p' := p.markCompleted id
+          go p' rest (s!"m:{p'.submitted},{p'.completed},{if p'.barrierOpen p'.submitted then 1 else 0}" :: acc)
+        | none => none
+      else none
+  match go Progress.init toks [] with
+  | some out => if out.isEmpty then "-" else " ".intercalate out
+  | none => "bad-op"
+
 def answer (line : String) : String :=
+  match words line with
+  | "tickets" :: toks => ticketsAnswer toks
+  | _ =>
   match (line.trimAscii.toString.splitOn " | ") with
   | "show" :: ops =>
     let d := ops.foldl (fun d op => stepOp d (words op)) { st := St.init, out := [], bad := false }
